@@ -1089,3 +1089,38 @@ Lemma hierarchy_example :
   /\ map ck_to (hierarchy false 60 2 hier_log) = [20; 41]
   /\ map ck_to (hierarchy false 6 3 hier_log) = [1; 3].
 Proof. conjs; vm_compute; reflexivity. Qed.
+
+(* ------------------------------------------------------------------ boundary cases, evaluated *)
+Fixpoint plain_msgs (n : nat) (s : N) : log :=
+  match n with O => [] | S k => mkf s BMsg :: plain_msgs k (s + 1) end.
+Definition users (o : option (decision * bundle)) : list N :=
+  match o with
+  | Some (_, b) => flat_map (fun i => match i with IUser s => [s] | _ => [] end) (b_items b)
+  | None => []
+  end.
+Definition code16 : params := {| p_limit := 16; p_max_refs := 3; p_fixed := false |}.
+Lemma boundary_examples :
+  (* exactly `limit` messages: all of them; one more: the oldest is dropped *)
+  users (compile code16 no_texts (mkf 0 BOther :: plain_msgs 16 1) 16) = map N.of_nat (seq 1 16)
+  /\ users (compile code16 no_texts (mkf 0 BOther :: plain_msgs 17 1) 17) = map N.of_nat (seq 2 16)
+  (* anchor = head: the cut is the head; anchor followed by non-message frames only: still the head *)
+  /\ option_map (fun r => b_from (snd r)) (compile code16 no_texts (mkf 0 BOther :: plain_msgs 3 1) 3) = Some 3
+  /\ option_map (fun r => b_from (snd r)) (compile code16 no_texts (mkf 0 BOther :: plain_msgs 3 1 ++ [mkf 4 BOther; mkf 5 BOther]) 3) = Some 5
+  (* mid-thread anchor: the cut is the frame before the next message *)
+  /\ option_map (fun r => b_from (snd r)) (compile code16 no_texts (mkf 0 BOther :: plain_msgs 2 1 ++ [mkf 3 BOther; mkf 4 BMsg]) 2) = Some 3
+  (* a checkpoint whose to_seq is the anchor itself: the bundle holds the summary ref and no message *)
+  /\ option_map (fun r => b_items (snd r)) (compile code16 no_texts (mkf 0 BOther :: plain_msgs 2 1 ++ [mkf 3 (BCkpt true 2 7)]) 2)
+     = Some [ISummary 7 2]
+  (* to_seq tie: the later frame's artifact is referenced *)
+  /\ option_map (fun r => b_items (snd r)) (compile code16 no_texts (mkf 0 BOther :: plain_msgs 2 1 ++ [mkf 3 (BCkpt true 1 7); mkf 4 (BCkpt true 1 8)]) 2)
+     = Some [ISummary 8 1; IUser 2]
+  (* halving thresholds: latest to_seq 1 -> no second level; latest 2 -> threshold 1; latest 3 -> threshold 1 *)
+  /\ map ck_to (hierarchy false 9 3 [mkf 5 (BCkpt true 1 0)]) = [1]
+  /\ map ck_to (hierarchy false 9 3 [mkf 5 (BCkpt true 1 0); mkf 6 (BCkpt true 2 1)]) = [1; 2]
+  /\ map ck_to (hierarchy false 9 3 [mkf 5 (BCkpt true 1 0); mkf 6 (BCkpt true 3 1); mkf 7 (BCkpt true 2 2)]) = [1; 3]
+  /\ map ck_to (hierarchy false 9 3 [mkf 5 (BCkpt true 0 0); mkf 6 (BCkpt true 1 1)]) = [1]
+  (* unknown anchor / anchor that is not a message / empty thread: no bundle *)
+  /\ compile code16 no_texts (mkf 0 BOther :: plain_msgs 2 1) 9 = None
+  /\ compile code16 no_texts (mkf 0 BOther :: plain_msgs 2 1) 0 = None
+  /\ compile code16 no_texts [] 0 = None.
+Proof. conjs; vm_compute; reflexivity. Qed.
